@@ -481,4 +481,5 @@ func runC10(c *Ctx) {
 			c.Ob("LSFILES-CLOSURE", "ImageFileInfosWithOnlyTargetsAndTargetImports/roots-and-order", fr.Decl.Pos(), startsFromTargets && sorted, true, "the walk starts from non-import files only and the result is sorted: %v/%v", startsFromTargets, sorted)
 		}
 	}
+	c10Extra(c)
 }
